@@ -1,0 +1,9 @@
+//go:build verif
+
+package emulate
+
+import "mltwist/pkg/expr"
+
+// VerifC30ReadValue reads one line of console input (see linereader.VerifSetInput)
+// and parses it as a value of width w, exactly as the emulator prompts do.
+func VerifC30ReadValue(w expr.Width) (expr.Const, error) { return readValue(w) }
